@@ -22,14 +22,14 @@ WALL_BUDGET = {"quick": 900, "thorough": 5400}
 SAMPLE_RATE = {"quick": 0.3, "thorough": 0.1}
 CHUNK = 32
 STUBS = ["asyncio.open_connection -> FakeNet (frozen after shutdown returns: activity is recorded as late)", "scripted reference console", "loop -> VLoop"]
-OUTSIDE = ["garbage collection of the dropped model objects", "a connect already in flight at shutdown may complete; it must then be closed at once, unwritten (interpretation of 'no further connection is attempted')", "shutdown() called concurrently with another shutdown()/init()"]
+OUTSIDE = ["shutdown() racing a handshake answer: loop-turn offsets beyond 23 turns after the console received the request (the handshake step completes within that window)", "garbage collection of the dropped model objects", "a connect already in flight at shutdown may complete; it must then be closed at once, unwritten (interpretation of 'no further connection is attempted')", "shutdown() called concurrently with another shutdown()/init()"]
 ASSUMPTIONS = ["'no timer or task remains' is observed as: the virtual loop has no pending timer and no ready handle at the horizon"]
 
 
 def bounds(tier):
     return {"phases": ["refusing", "connecting", "handshake", "initialised", "pending", "after_failed_init", "backoff"],
             "socket_level_close": ["down_queue", "connecting", "write_suspended", "backoff"],
-            "shutdown_instant": "symbolic within the phase's window", "idle_horizon_s": 700, "reinit": True,
+            "shutdown_instant": "symbolic within the phase's window", "race_with_handshake_answer": "steps 0..5 x 0..23 loop turns after the request, same instant", "idle_horizon_s": 700, "reinit": True,
             "second_shutdown_of_the_new_session": tier == "thorough"}
 
 
@@ -46,6 +46,11 @@ def instances(tier):
         out.append({"phase": "backoff", "gen": g})
         for sc in ("down_queue", "connecting", "write_suspended", "backoff"):
             out.append({"phase": "sock_close", "gen": g, "scenario": sc})
+        for st in range(6):
+            out.append({"phase": "race", "gen": g, "step": st})
+        for st in (3, 4):
+            # the console also broadcasts its zone/group status unsolicited right behind the answer (as consoles do on any change)
+            out.append({"phase": "race", "gen": g, "step": st, "broadcast": True})
         if tier == "thorough":
             out.append({"phase": "initialised", "gen": g, "second_cycle": True})
             out.append({"phase": "pending", "gen": g, "second_cycle": True})
@@ -71,9 +76,16 @@ def run(ctx, p):
     inst = Installation.simple(g.n, n_acs=2, zones_per_ac=2)
     mode = {"accept": phase not in ("refusing",)}
     lat = 3.0 if phase == "connecting" else 0
-    window = {"refusing": (0, 7), "connecting": (0, 5), "handshake": (0.25, 6.5), "initialised": (1, 400), "pending": (3, 9),
+    RACE_TURNS = 24
+    window = {"race": (0, 0), "refusing": (0, 7), "connecting": (0, 5), "handshake": (0.25, 6.5), "initialised": (1, 400), "pending": (3, 9),
               "after_failed_init": (5.5, 9), "backoff": (1, 8)}[phase]
-    ts = ctx.real("ts", window[0], window[1])
+    if phase == "race":
+        # shutdown() is called k loop turns after the console received the request of handshake step `step`, at the same
+        # virtual instant: the answer is then in flight / buffered / being handled (handler suspended in a notification)
+        ts = 0
+        k_turns = ctx.choice("turns", RACE_TURNS)
+    else:
+        ts = ctx.real("ts", window[0], window[1])
     with ApiRig(ctx, g, inst) as rig:
         con = rig.console
 
@@ -118,9 +130,32 @@ def run(ctx, p):
 
             rig.loop.vt_call_at(1.0, kill)
             rig.loop.vt_call_at(2.0, lambda: rig.spawn(cmd()))
-        rig.loop.vt_call_at(ts, lambda: rig.spawn(do_shutdown()))
+        if phase == "race":
+            armed = {"on": True}
+
+            def hop(n):
+                if n <= 0:
+                    rig.spawn(do_shutdown())
+                else:
+                    rig.loop.call_soon(hop, n - 1)
+
+            def on_request(conn, kind, fr):
+                if armed["on"] and kind == STEPS[p["step"]]:
+                    armed["on"] = False
+                    hop(k_turns)
+
+            con.on_request = on_request
+            if p.get("broadcast"):
+                con.silent.add(STEPS[p["step"] + 1])       # the next request stays unanswered: only the broadcast is in the buffer
+                con.extra[STEPS[p["step"]]] = [("after", con.zone_status_frame(pid=0x7E))]
+        else:
+            rig.loop.vt_call_at(ts, lambda: rig.spawn(do_shutdown()))
         rig.run(ts + 1.0)
         detail = {"phase": phase, "step": p.get("step")}
+        if phase == "race":
+            detail["turns_after_request"] = k_turns
+            con.on_request = None
+            con.extra.clear()
         ctx.check("at" in done, "nothing_after_shutdown", detail=dict(detail, why="shutdown() did not return within 1 s"))
         # the console is reachable again and would answer: nothing may happen any more
         mode["accept"] = True
